@@ -711,6 +711,12 @@ Definition chain_cmd (st : dstate) (cmd : tok) (args : list tok) : option (dstat
         end
     | _, _ => Some (st, bad)
     end
+  else if tok_is cmd "SIGMOD" then
+    (* the signatures of the pending transaction are not signatures over it: no account has signed *)
+    match d_tx st with
+    | Some p => Some (upd_tx st (Some {| p_fee := p_fee p; p_signers := []; p_msgs := p_msgs p; p_exec := p_exec p |}), [])
+    | None => Some (st, bad)
+    end
   else if tok_is cmd "X" then
     match d_tx st, args with
     | Some p, [g] =>
